@@ -476,6 +476,7 @@ func init() {
 			"Not decided: anything about actual schedules; races inside sync.Pool/channels/BLAS (trusted); read-only-operand purity of the hand-written operations (findings 13, 14, 16 of DESIGN.md are listed there, not decided by this check).",
 		Assume: []string{"locks are taken on package-level mutexes by direct calls (the repo's only idiom); interprocedural lock holding is not modelled"},
 		Run: func(rc *rules.RC) {
+			rules.PO(rc, 4)
 			rules.O8(rc)
 			rules.O9(rc, 20)
 			rules.RP(rc, nil, 0)
@@ -496,6 +497,7 @@ func init() {
 			"Not decided: corruption through backing arrays the API documents as shared; use-after-return inside one function (O9) beyond the rules above.",
 		Assume: []string{"interface calls resolve to the module's implementing types (CHA restricted to the module)", "flow-insensitive origin tracing through locals and captured variables (over-approximates aliases)"},
 		Run: func(rc *rules.RC) {
+			rules.PO(rc, 4)
 			rules.O11(rc, 1)
 			rules.EP(rc, nil, 100)
 			rules.LGuards(rc, "C19")
